@@ -356,8 +356,9 @@ BranchPool ==
   {Branch(lt, init, its) : lt \in {"none", "ident", "mut"}, init \in {<<"b", 1>>, <<"b", 6>>, <<"b", 5>>},
                            its \in {<<>>, <<Item("map", FALSE, "none", <<<<"b", 3>>>>)>>, <<Item("and_then", TRUE, "none", <<<<"b", 6>>>>)>>,
                                     <<Item("map", FALSE, "wrap", <<>>), Item("then", FALSE, "none", <<<<"b", 1>>>>)>>}}
+SmallPool == {b \in BranchPool : b.let \in {"none", "ident"} /\ b.init \in {<<"b", 1>>, <<"b", 6>>} /\ Len(b.items) <= 1}
 FamBranches(dummy) ==
-  {Struct(bs, h, hp, tr) : bs \in UNION {[1 .. n -> BranchPool] : n \in 1 .. (IF Tier = "quick" THEN 2 ELSE 3)},
+  {Struct(bs, h, hp, tr) : bs \in UNION {[1 .. n -> BranchPool] : n \in 1 .. 2} \cup (IF Tier = "quick" THEN {} ELSE [1 .. 3 -> SmallPool]),
                            h \in {"none", "map", "then", "and_then"}, hp \in 0 .. 3, tr \in BOOLEAN}
 
 Structures(dummy) ==
